@@ -1,7 +1,7 @@
 """C09 - UDP responses follow BEP 15."""
 PROP = {
     "glue": "G09", "chk": "chk09", "explain": "explain09",
-    "n": {"quick": 1500, "thorough": 50000},
+    "n": {"quick": 1500, "thorough": 25000},
     "rule": "cases = WriteAnnounce (interval grid incl. sub-second, negative, >= 2^31 s, int64 extremes; counts 0..2^32-1; 0..110 peers per family; both actions x both requester families; "
             "a few peer lists with address bytes of the wrong width), WriteScrape (0..75 files), middleware.NewLogic(...).HandleScrape over a table-backed store followed by WriteScrape "
             "(1..60 infohashes with repeats and near-identical hashes, both families), WriteConnectionID, WriteError (every client error text of the code base, client errors behind 1-2 wrappers, "
